@@ -80,6 +80,8 @@ class Ctx:
         self.proof = None
         self.broken = []           # names of theorems / correspondences that no longer check
         self.findings = load_findings(pid)
+        self.ndebug_too = False    # also build every driver with -DNDEBUG as <out>.ndebug (plug-in attribute NDEBUG_TOO)
+        self.variant = ""          # "ndebug": run_lines substitutes the .ndebug build of a driver
 
     # ---------------------------------------------------------------- util
     def rng(self, *salt):
@@ -196,6 +198,9 @@ class Ctx:
         """Compile harness/<name>.c with the given /repo/src files (from the working tree)."""
         out = out or self.path(name)
         srcs = [os.path.join(HARNESS, name + ".c")] + self.repo_src(*repo_files) + list(extra)
+        if self.ndebug_too:
+            # the configuration the library is normally built in (assertions compiled out)
+            self.cc(srcs, out + ".ndebug", flags=list(flags) + ["-DNDEBUG"], sanitize=sanitize)
         return self.cc(srcs, out, flags=flags, sanitize=sanitize)
 
     # ---------------------------------------------------------------- running
@@ -206,6 +211,8 @@ class Ctx:
         e.setdefault("UBSAN_OPTIONS", "print_stacktrace=1:halt_on_error=1:exitcode=98")
         if env:
             e.update(env)
+        if self.variant == "ndebug" and os.path.exists(cmd[0] + ".ndebug"):
+            cmd = [cmd[0] + ".ndebug"] + list(cmd[1:])
         rc, out, err = sh(cmd, stdin="\n".join(lines) + "\n", timeout=timeout, env=e)
         return rc, out.split("\n")[:-1] if out.endswith("\n") else out.split("\n"), err
 
@@ -468,6 +475,7 @@ def standard_check(ctx, plug):
               "log": pr["log"] + extra["log"]}
         ctx.proof = pr
     ctx.log("proof: %d/%d theorems, ok=%s" % (pr["discharged"], pr["obligations"], pr["ok"]))
+    ctx.ndebug_too = bool(getattr(plug, "NDEBUG_TOO", False))
     try:
         plug.build(ctx)
     except BuildError as e:
@@ -499,6 +507,29 @@ def standard_check(ctx, plug):
     impl, model, spec = run_all(cases, "correspondence")
     l1, l2 = judge(cases, impl, model, spec)
 
+    # second configuration: the same cases (plus any the plug-in reserves for it, e.g. inputs an assertion would
+    # reject) against the drivers built with -DNDEBUG; same model and spec lines
+    nd = None
+    if ctx.ndebug_too:
+        ctx.variant = "ndebug"
+        extra_n = plug.gen_ndebug(ctx, ctx.seed, ctx.tier) if hasattr(plug, "gen_ndebug") else []
+        # cases whose expected outcome is an assertion failure have no meaning in this configuration
+        keep = [i for i, c in enumerate(cases) if not hasattr(plug, "ndebug_case") or plug.ndebug_case(c, model[i])]
+        cases_n = [cases[i] for i in keep] + extra_n
+        t_n = time.time()
+        impl_n = plug.run_impl(ctx, cases_n)
+        model_n, spec_n = [model[i] for i in keep], [spec[i] for i in keep]
+        if extra_n:
+            m2, s2 = plug.run_model(ctx, extra_n)
+            model_n, spec_n = model_n + m2, spec_n + s2
+        ctx.variant = ""
+        l1_n, l2_n = judge(cases_n, impl_n, model_n, spec_n)
+        ctx.log("NDEBUG build: %d cases in %.1fs (%d reserved for it)" % (len(cases_n), time.time() - t_n, len(extra_n)))
+        nd = {"cases": cases_n, "impl": impl_n, "model": model_n, "spec": spec_n, "l1": l1_n, "l2": l2_n, "extra": len(extra_n)}
+        if l2_n:
+            ctx.broken.append("correspondence:%s (NDEBUG build) impl!=model on %d/%d cases (first: case %d)" %
+                              (ctx.pid, len(l2_n), len(cases_n), l2_n[0]))
+
     # classify L1 failures: known finding (same class AND impl == faithful model) or new
     new_l1 = []
     for i in l1:
@@ -528,8 +559,18 @@ def standard_check(ctx, plug):
 
     need_search = bool(ctx.broken)
     fail_case = None
+    new_l1_n = []
+    if nd:
+        for i in nd["l1"]:
+            fid = plug.classify(nd["cases"][i], nd["impl"][i], nd["model"][i], nd["spec"][i]) if hasattr(plug, "classify") else None
+            if not (fid and fid in [f["id"] for f in ctx.findings] and nd["impl"][i] == nd["model"][i]):
+                new_l1_n.append(i)
     if new_l1:
         fail_case = (cases[new_l1[0]], impl[new_l1[0]], model[new_l1[0]], spec[new_l1[0]])
+    elif new_l1_n:
+        i = new_l1_n[0]
+        fail_case = (nd["cases"][i], nd["impl"][i], nd["model"][i], nd["spec"][i])
+        ctx.variant = "ndebug"          # shrink and report under the configuration it fails in
     elif need_search:
         ctx.log("broken: %s -> searching for a failing input" % ctx.broken)
         extra = []
@@ -568,6 +609,7 @@ def standard_check(ctx, plug):
                 b, s = plug.run_model(ctx, [c2])
                 c, im, mo, sp = c2, a[0], b[0], s[0]
         ctx.report_violation({"case": c, "impl": im, "model": mo, "spec": sp,
+                              "configuration": "sources built with -DNDEBUG" if ctx.variant == "ndebug" else "default",
                               "what": "implementation output contradicts the spec on this input",
                               "replay_cmd": "python3 tools/check.py %s --replay <this file>" % ctx.pid})
     elif need_search:
@@ -576,6 +618,10 @@ def standard_check(ctx, plug):
                "proof_log": (ctx.proof or {}).get("log", "")[-1500:] if not (ctx.proof or {}).get("ok") else ""}
         if first is not None:
             rep.update({"first_diverging_case": cases[first], "impl": impl[first], "model": model[first], "spec": spec[first]})
+        elif nd and nd["l2"]:
+            i = nd["l2"][0]
+            rep.update({"first_diverging_case": nd["cases"][i], "impl": nd["impl"][i], "model": nd["model"][i],
+                        "spec": nd["spec"][i], "configuration": "sources built with -DNDEBUG"})
         ctx.report_violation(rep, no_input=True)
 
     nt = set(c for c in cases if plug.nontrivial(c)) if hasattr(plug, "nontrivial") else set(cases)
@@ -589,6 +635,8 @@ def standard_check(ctx, plug):
         "l1_spec_failures_known": sum(ctx.known_hits.values()),
         "l1_spec_failures_new": len(new_l1),
         "l2_model_mismatches": len(l2),
+        "ndebug_build": ({"cases": len(nd["cases"]), "reserved_for_it": nd["extra"], "l1_spec_failures_new": len(new_l1_n),
+                          "l2_model_mismatches": len(nd["l2"])} if nd else "not run for this property"),
         "corpus_cases": len(corpus),
     }
     if hasattr(plug, "stats"):
@@ -605,7 +653,10 @@ def replay(ctx, plug, path):
     if c is None:
         print(json.dumps(r, indent=1))
         return 0
+    ctx.ndebug_too = bool(getattr(plug, "NDEBUG_TOO", False))
     plug.build(ctx)
+    if "NDEBUG" in str(r.get("configuration", "")):
+        ctx.variant = "ndebug"
     a = plug.run_impl(ctx, [c])
     m, s = plug.run_model(ctx, [c])
     print("case : %s\nimpl : %s\nmodel: %s\nspec : %s" % (c, a[0], m[0], s[0]))
